@@ -16,25 +16,32 @@ use std::time::{Duration, Instant};
 pub fn run_tokens(args: &Args, mut out: Out) {
     let depth = args.usize("depth", 6);
     // ops: 0 = try-take with timeout 0, 1 = drop oldest held, 2 = drop newest held,
-    //      3 = make and drop a token that belongs to no set, 4 = blocking take when one is available
+    //      3 = make and drop a token that belongs to no set, 4 = blocking take when one is available,
+    //      5 = the newest held token is dropped while its owner unwinds from a panic (how a connection task that
+    //          panics returns its slot), 6 = the oldest held token is dropped on another thread
     let mut sid = 0u64;
     for size in 1..=3usize {
         for d in 1..=depth {
-            for code in 0..5usize.pow(d as u32) {
+            for code in 0..7usize.pow(d as u32) {
                 sid += 1;
                 if !out.wants(sid) {
                     continue;
                 }
-                let set = TokenSet::new(size);
+                let mut set = Some(TokenSet::new(size));
+                let mut hung = false;
                 let mut held: Vec<Token> = vec![];
                 let mut c = code;
                 let mut steps = vec![];
                 for _ in 0..d {
-                    let op = c % 5;
-                    c /= 5;
+                    if hung {
+                        break;
+                    }
+                    let set_ref = set.as_ref();
+                    let op = c % 7;
+                    c /= 7;
                     match op {
                         0 => {
-                            let r = set.wait_token_timeout(Duration::ZERO);
+                            let r = set_ref.unwrap().wait_token_timeout(Duration::ZERO);
                             let ok = r.is_ok();
                             if let Ok(t) = r {
                                 held.push(t);
@@ -52,6 +59,25 @@ pub fn run_tokens(args: &Args, mut out: Out) {
                             let had = held.pop().is_some();
                             steps.push(json!({"op":"drop","had":had,"ok":false}));
                         }
+                        5 => {
+                            let t = held.pop();
+                            let had = t.is_some();
+                            if let Some(t) = t {
+                                let _ = catch(move || {
+                                    let _held_by_the_panicking_owner = t;
+                                    panic!("injected panic of a token owner");
+                                });
+                            }
+                            steps.push(json!({"op":"drop","had":had,"ok":false}));
+                        }
+                        6 => {
+                            let had = !held.is_empty();
+                            if had {
+                                let t = held.remove(0);
+                                std::thread::spawn(move || drop(t)).join().unwrap();
+                            }
+                            steps.push(json!({"op":"drop","had":had,"ok":false}));
+                        }
                         3 => {
                             drop(Token::new());
                             steps.push(json!({"op":"foreign","ok":false,"had":false}));
@@ -59,8 +85,24 @@ pub fn run_tokens(args: &Args, mut out: Out) {
                         _ => {
                             // a blocking take is only attempted when the model says a unit is available
                             if held.len() < size {
-                                held.push(set.wait_token());
-                                steps.push(json!({"op":"take","ok":true,"had":false}));
+                                // on a helper thread: a take that never returns is data ("hang"), not a stuck harness
+                                let (tx, rx) = std::sync::mpsc::channel();
+                                let owned = set.take().unwrap();
+                                std::thread::spawn(move || {
+                                    let t = owned.wait_token();
+                                    let _ = tx.send((owned, t));
+                                });
+                                match rx.recv_timeout(Duration::from_secs(3)) {
+                                    Ok((back, t)) => {
+                                        set = Some(back);
+                                        held.push(t);
+                                        steps.push(json!({"op":"take","ok":true,"had":false}));
+                                    }
+                                    Err(_) => {
+                                        steps.push(json!({"op":"take","ok":false,"had":false}));
+                                        hung = true;
+                                    }
+                                }
                             } else {
                                 steps.push(json!({"op":"foreign","ok":false,"had":false}));
                             }
@@ -68,13 +110,18 @@ pub fn run_tokens(args: &Args, mut out: Out) {
                     }
                 }
                 held.clear();
+                if sid % 4096 == 0 {
+                    take_panics();
+                }
                 let mut again = 0;
                 let mut keep = vec![];
-                while let Ok(t) = set.wait_token_timeout(Duration::ZERO) {
-                    keep.push(t);
-                    again += 1;
-                    if again > 10 {
-                        break;
+                if let Some(set) = set.as_ref() {
+                    while let Ok(t) = set.wait_token_timeout(Duration::ZERO) {
+                        keep.push(t);
+                        again += 1;
+                        if again > 10 {
+                            break;
+                        }
                     }
                 }
                 out.ev(sid, "Reset", json!({}));
